@@ -146,19 +146,25 @@ def reviewed : List (String × List Entry) :=
       .drainedBy "the handler's `for … := range ch` copy loop: handler_loops_read_to_close"⟩]),
   ("service/queryLabelsService.go:QueryLabelsService.Series#1",
    [⟨"close", "QueryLabelsService.Series#1", "close(res)",
-      .contract "Series starts its two goroutines on exclusive paths (`if requests == nil { go …; return res, nil }`): each run closes res once"⟩,
+      .ownChannel⟩,
     ⟨"send", "QueryLabelsService.Series#1", "res <- `{\"status\":\"success\", \"data\":[]}`",
       .drainedBy "the handler's `for … := range ch` copy loop: handler_loops_read_to_close"⟩]),
-  ("service/queryLabelsService.go:QueryLabelsService.Series#2",
-   [⟨"close", "QueryLabelsService.Series#2", "close(res)",
-      .contract "Series starts its two goroutines on exclusive paths (`if requests == nil { go …; return res, nil }`): each run closes res once"⟩,
-    ⟨"send", "QueryLabelsService.Series#2", "res <- `{\"status\":\"success\", \"data\":[`",
+  -- (c17z) `Series` / `PromSeries` share the statement building and the two senders of `series`
+  ("service/queryLabelsService.go:QueryLabelsService.series#1",
+   [⟨"close", "QueryLabelsService.series#1", "close(res)",
+      .contract "series starts its two goroutines on exclusive paths (`if fingerprints == nil { go …; return res, nil }`): each run closes res once"⟩,
+    ⟨"send", "QueryLabelsService.series#1", "res <- `{\"status\":\"success\", \"data\":[]}`",
+      .drainedBy "the handler's `for … := range ch` copy loop: handler_loops_read_to_close"⟩]),
+  ("service/queryLabelsService.go:QueryLabelsService.series#2",
+   [⟨"close", "QueryLabelsService.series#2", "close(res)",
+      .contract "series starts its two goroutines on exclusive paths (`if fingerprints == nil { go …; return res, nil }`): each run closes res once"⟩,
+    ⟨"send", "QueryLabelsService.series#2", "res <- `{\"status\":\"success\", \"data\":[`",
       .drainedBy "the handler's `for … := range ch` copy loop: handler_loops_read_to_close"⟩,
-    ⟨"send", "QueryLabelsService.Series#2", "res <- \",\"",
+    ⟨"send", "QueryLabelsService.series#2", "res <- \",\"",
       .drainedBy "the handler's `for … := range ch` copy loop: handler_loops_read_to_close"⟩,
-    ⟨"send", "QueryLabelsService.Series#2", "res <- lbls",
+    ⟨"send", "QueryLabelsService.series#2", "res <- lbls",
       .drainedBy "the handler's `for … := range ch` copy loop: handler_loops_read_to_close"⟩,
-    ⟨"send", "QueryLabelsService.Series#2", "res <- `]}`",
+    ⟨"send", "QueryLabelsService.series#2", "res <- `]}`",
       .drainedBy "the handler's `for … := range ch` copy loop: handler_loops_read_to_close"⟩]),
   ("service/queryRangeService.go:QueryRangeService.QueryRange#1",
    [⟨"close", "QueryRangeService.exportStreamsValue", "close(res)",
